@@ -148,7 +148,7 @@ def impl_events(ctx):
             D = rng.choice([2, 4, 6])
             Lr = xtal.lattice_from_gram(G, a=1.7 * D / 2, rng=nprng)
             Ls = U @ Lr
-            n_to = 6 if ctx.quick else 10
+            n_to = min(6 if ctx.quick else 10, D ** 3)
             pts = {(0, 0, 0), (D // 2, D // 2, D // 2), (D // 2, 0, 0), (0, D // 2, D // 2)}
             while len(pts) < n_to:
                 pts.add(tuple(rng.randrange(0, D) for _ in range(3)))
